@@ -260,7 +260,7 @@ func ruleLabelIdentity(r *Run) {
 		var scan func(f *ssa.Function)
 		scan = func(f *ssa.Function) {
 			for _, c := range callsIn(f) {
-				if callIs(c, eng, "(*LabelSet).Set") {
+				if callIs(c, eng, "(*LabelSet).Set") || isSetStrWrapper(staticCallee(c), eng) {
 					out = append(out, c)
 				}
 			}
@@ -270,6 +270,22 @@ func ruleLabelIdentity(r *Run) {
 		}
 		scan(fn)
 		return out
+	}
+	// the text a Set call stores: the argument of the value constructor (Set(l, NewValueStr(s))), or the
+	// string handed to a wrapper that builds the value itself (setStr(l, s))
+	setInner := func(c ssa.CallInstruction) (ssa.Value, bool) {
+		args := c.Common().Args
+		if len(args) < 3 {
+			return nil, false
+		}
+		if isSetStrWrapper(staticCallee(c), eng) {
+			return args[2], true
+		}
+		vc, ok := args[2].(*ssa.Call)
+		if !ok || len(vc.Call.Args) != 1 {
+			return nil, false
+		}
+		return vc.Call.Args[0], true
 	}
 	// json extractSome: membership polarity, same key
 	{
@@ -343,8 +359,8 @@ func ruleLabelIdentity(r *Run) {
 		}
 		bad := false
 		val := sets[0].Common().Args[2]
-		vc, ok := val.(*ssa.Call)
-		if !ok || len(vc.Call.Args) != 1 || !strings.Contains(describe(vc.Call.Args[0], 0), "(*github.com/go-logfmt/logfmt.Decoder).Value") {
+		inner, ok := setInner(sets[0])
+		if !ok || !strings.Contains(describe(inner, 0), "(*github.com/go-logfmt/logfmt.Decoder).Value") {
 			bad = true
 			o.Fail(r.pos(sets[0].Pos()), "the stored value is %s, not the pair's value", describe(val, 0))
 		}
@@ -411,12 +427,13 @@ func ruleLabelIdentity(r *Run) {
 					bad = true
 					o.Fail(r.pos(sets[0].Pos()), "the label is %s, not mapping[index of the capture]", describe(lbl, 0))
 				}
-				vc, ok := sets[0].Common().Args[2].(*ssa.Call)
-				if !ok || len(vc.Call.Args) != 1 {
+				inner, ok := setInner(sets[0])
+				if !ok {
 					bad = true
-				} else if lu, ok := vc.Call.Args[0].(*ssa.UnOp); !ok || !isIndexOf(lu.X, loop) {
+					o.Fail(r.pos(sets[0].Pos()), "the value is %s, not the ranged capture", describe(sets[0].Common().Args[2], 0))
+				} else if lu, ok := inner.(*ssa.UnOp); !ok || !isIndexOf(lu.X, loop) {
 					bad = true
-					o.Fail(r.pos(sets[0].Pos()), "the value is %s, not the ranged capture", describe(vc.Call.Args[0], 0))
+					o.Fail(r.pos(sets[0].Pos()), "the value is %s, not the ranged capture", describe(inner, 0))
 				}
 				// every named capture is exposed: inside the loop the Set call is guarded by the
 				// presence of a mapping for the group and by nothing else (an empty capture is a value)
@@ -1052,4 +1069,36 @@ func unpackFieldHandler(fn *ssa.Function) (h *ssa.Function, recv bool) {
 		}
 	}
 	return nil, false
+}
+
+// isSetStrWrapper: fn is a LabelSet method (recv, label, text) that does nothing but
+// recv.Set(label, NewValueStr(text)): a spelling of Set for string values.
+func isSetStrWrapper(fn *ssa.Function, eng string) bool {
+	if fn == nil || len(fn.Blocks) != 1 || len(fn.Params) != 3 || recvNamedOf(fn) != "LabelSet" || !isStringType(fn.Params[2].Type()) {
+		return false
+	}
+	n := 0
+	ok := false
+	for _, c := range callsIn(fn) {
+		if pk, nm := calleePkgName(c); strings.HasSuffix(pk, "pdata/pcommon") && nm == "NewValueStr" {
+			if len(c.Common().Args) != 1 || c.Common().Args[0] != ssa.Value(fn.Params[2]) {
+				return false
+			}
+			continue
+		}
+		n++
+		if !callIs(c, eng, "(*LabelSet).Set") {
+			return false
+		}
+		a := c.Common().Args
+		if len(a) != 3 || a[0] != ssa.Value(fn.Params[0]) || a[1] != ssa.Value(fn.Params[1]) {
+			return false
+		}
+		vc, isCall := a[2].(*ssa.Call)
+		if !isCall || len(vc.Call.Args) != 1 || vc.Call.Args[0] != ssa.Value(fn.Params[2]) {
+			return false
+		}
+		ok = true
+	}
+	return ok && n == 1
 }
